@@ -82,6 +82,8 @@ def observe (r : Rep) (ws : List String) : Option String :=
     let uc := (List.range (r.dd.top + 1)).map fun i => if r.dd.uc i then 1 else 0
     let rm := (List.range (r.dd.top + 1)).map fun i => if r.dd.rm i then 1 else 0
     some s!"meta top={r.dd.top} nb={r.dd.nb} uc={joinNat uc} rm={joinNat rm} chain={",".intercalate r.names} head={r.headN} rev={r.rev} mode={modeStr r.mode} open={r.isOpen} ckpt={r.ckpt}"
+  | ["cmp"] =>   -- after the promotion the three RW replicas hold identical images (C02, C07)
+    if r.rb = 3 then some "cmp equal" else some "inadmissible"
   | ["recs"] => if !r.isOpen then some "recs closed" else some ("recs " ++ joinNat r.recs)
   | ["imeta"] =>
     if !r.isOpen then some "imeta closed" else
@@ -104,7 +106,7 @@ def rbAllowed (phase : Nat) : List String :=
   -- before the swap the source's location map depends on which RW replica served the controller's
   -- widening reads, so it is not observed
   if phase = 1 then ["w", "r", "full", "rbreload", "rbend", "punch"]
-  else ["w", "r", "full", "holes", "loc", "meta", "imeta", "apply", "lunmap", "rbpromote", "rbend", "cands", "punch"]
+  else ["w", "r", "full", "holes", "loc", "meta", "imeta", "apply", "lunmap", "rbpromote", "rbend", "cands", "punch", "cmp"]
 
 partial def loop (h : IO.FS.Stream) (out : IO.FS.Stream) (r : Rep) : IO Unit := do
   let line ← h.getLine
